@@ -9,6 +9,7 @@ import (
 
 	"verif/harness/core"
 	"verif/harness/eco"
+	"verif/harness/gen"
 	"verif/harness/ref"
 )
 
@@ -538,7 +539,7 @@ func runC05(c *core.Ctx, ck *Check) {
 		k   int
 	}
 	var jobs []job
-	rounds := c.Scale(2, 40)
+	rounds := c.Scale(6, 60)
 	for _, n := range []string{"npm", "cargo", "composer", "conan", "gem", "hex", "pypi", "nuget", "maven"} {
 		for k := 0; k < rounds; k++ {
 			jobs = append(jobs, job{n, k})
@@ -592,7 +593,26 @@ func runC05(c *core.Ctx, ck *Check) {
 		}
 		pool := BuildPool(e, r, 60, w)
 		for n := 0; n < c.Scale(70, 150); n++ {
-			b := base3{x: vals[r.IntN(len(vals))], y: vals[r.IntN(len(vals))], z: vals[r.IntN(len(vals))], w: vals[r.IntN(4)], arity: 1 + r.IntN(3)}
+			comp := func() int {
+				var s string
+				switch r.IntN(14) {
+				case 0, 4:
+					s = gen.CarryNum(r) // 199, 2999, 1100: bumping a component must carry digit-exactly
+				case 1:
+					s = gen.DateNum(r, false)
+				case 2:
+					s = gen.EcoNum(j.eco, r)
+				case 3:
+					return r.IntN(10000)
+				default:
+					return vals[r.IntN(len(vals))]
+				}
+				if n, err := strconv.Atoi(s); err == nil && n >= 0 && n < 1<<30 {
+					return n
+				}
+				return vals[r.IntN(len(vals))]
+			}
+			b := base3{x: comp(), y: comp(), z: comp(), w: vals[r.IntN(4)], arity: 1 + r.IntN(3)}
 			switch r.IntN(6) { // zeros in leading positions
 			case 0:
 				b.x = 0
